@@ -179,6 +179,11 @@ func c17NestedPrograms() []*progCase {
 		{{Kind: "BEGINFILE", Body: Blk(Pr(), change(), Pr())}, {Kind: "ENDFILE", Body: Blk(Pr(), Ex(CallE(V("bump"), V("$"))), Pr())}},
 		{{Body: Blk(Ex(Asg("=", V("alias"), V("$"))), Pr(), &If{Cond: &IsExpr{V("alias"), "object"}, Then: Blk(Ex(Asg("=", Mem(V("alias"), "via"), S("alias"))))}, Pr(), Ex(Asg("=", V("$"), Arr_(V("$")))), Pr(), Pr())}},
 	}
+	// nulls that were read from places that do not exist are printed as the word null, also as direct arguments
+	missing := Blk(Ex(Asg("=", V("a"), Arr_(N("10"), N("20")))), Ex(Asg("=", V("o"), &ObjLit{Keys: []string{"k"}, Vals: []Expr{N("1")}})),
+		Pr(Idx(V("a"), N("2")), Idx(V("a"), N("7")), Idx(V("o"), N("3")), Mem(V("o"), "zz"), Idx(Idx(V("a"), N("5")), N("1")), Idx(S("ab"), N("9"))),
+		Pr(Idx(V("$"), N("4")), Mem(V("$"), "none"), Arr_(Idx(V("a"), N("3"))), Idx(V("a"), N("1"))))
+	out = append(out, &progCase{P: &Program{Rules: []*Rule{{Body: missing}}}, Files: []inFile{{"in.json", `[[1],{"x":1},"s"]`}}})
 	for _, rules := range inplace {
 		for _, doc := range []string{`[{"n":1},{"n":2,"sub":{}},[1],[],"s",5]`, `{"n":1} [2]`} {
 			out = append(out, &progCase{P: &Program{Funcs: []*Func{bump}, Rules: rules}, Files: []inFile{{"in.json", doc}}})
